@@ -105,7 +105,7 @@ def judge(case, impl, drv):
                 p_ok = False
             # agreement with glob on wildcard-free paths over sibling-unique, well-formed names
             g = impl[i - 2]                      # the strict glob of the same (start, path, ignorecase)
-            if case.get("unique") and rc.names_ok(case["names"], case["sep"]) and "**" not in q["path"]:
+            if _sibling_unique(case, q["ignorecase"]) and rc.names_ok(case["names"], case["sep"]) and "**" not in q["path"]:
                 if "ok" in r and r["ok"] is not None and g != {"ok": [r["ok"]]}:
                     p_ok = False
                 if "err" in r and ("err" not in g or g["err"][0] != r["err"][0]):
